@@ -42,7 +42,7 @@ FLOORS = {
     "X1": 5, "X2": 40, "X3": 6,
     "P1": 5, "P2": 5, "P3": 5, "P4": 2, "P5": 3, "P6": 9, "P7": 5,
     "E7": 30, "U1": 5, "S2": 12, "S3": 15, "G1": 6, "S1b": 6, "M1": 2,
-    "N1": 25, "N2": 8, "O4": 3, "O5": 4, "O6": 2,
+    "N1": 25, "N2": 8, "O4": 3, "O5": 4, "O6": 2, "S4": 1, "S5": 3,
 }
 
 PROPERTIES = {}
@@ -122,7 +122,7 @@ prop(
     rules=[_t(T.rule_T3a, rows=("canceling",)), _t(T.rule_T3b, rows=("canceling",)),
            _t(T.rule_T3c, rows=("canceling",)), _t(T.rule_T3e), _t(T.rule_T3f),
            _t(T.rule_T3g), _t(T.rule_T3h, rows=("canceling",)), _t(T.rule_T4a), _t(T.rule_T4f),
-           P.rule_P2],
+           P.rule_P2, P.rule_P7, G.rule_G1],
     controls=[K.ctl_wf_canceling_to_succeeded],
     exhaustive=True,
     explanation=(
@@ -227,7 +227,7 @@ prop(
     "C11",
     anchor_modules=ENGINE_MODS + ["expressions.base", "expressions.yql", "expressions.jinja",
                                   "specs.native.v1.models"],
-    rules=[X.rule_X1, X.rule_X2, X.rule_X3],
+    rules=[X.rule_X1, X.rule_X2, X.rule_X3, _t(T.rule_T3g), P.rule_P2],
     controls=[K.ctl_narrow_next_tasks_handler, K.ctl_unwrap_criteria_try,
               K.ctl_unwrap_evaluator_try, K.ctl_handler_without_fail],
     explanation=(
@@ -273,7 +273,7 @@ prop(
 prop(
     "C07",
     anchor_modules=ENGINE_MODS + ["composers.native", "graphing"],
-    rules=[P.rule_P5, P.rule_P7, E.rule_F7, _e7_items],
+    rules=[P.rule_P5, P.rule_P7, E.rule_F7, _e7_items, _t(T.rule_T3b), E.rule_O3],
     controls=[K.ctl_join_always_ready, K.ctl_join_threshold, K.ctl_drop_join_check],
     explanation=(
         "Decides the structural clauses of the join barrier: the ready flag of a staged entry is "
@@ -293,7 +293,7 @@ prop(
 prop(
     "C13",
     anchor_modules=ENGINE_MODS,
-    rules=[P.rule_P6, _t(T.rule_T4e)],
+    rules=[P.rule_P6, _t(T.rule_T4e), E.rule_O1],
     controls=[K.ctl_retry_off_by_one],
     explanation=(
         "Decides the structural clauses of retry: the retry decision (an if whose test calls "
@@ -326,7 +326,7 @@ prop(
     "C15",
     anchor_modules=TABLE_MODS + ["specs.base", "specs.native.v1.models", "composers.native"],
     rules=[_t(T.rule_T0), _t(T.rule_T1), _t(T.rule_T5), OPT.rule_E7, SC.rule_S2, SC.rule_S3,
-           OPT.rule_U1],
+           SC.rule_S4, SC.rule_S5, OPT.rule_U1],
     controls=[K.ctl_unguarded_staged_deref, K.ctl_unguarded_task_name, K.ctl_drop_detector,
               K.ctl_untracked_property],
     explanation=(
@@ -349,7 +349,8 @@ prop(
 prop(
     "C17",
     anchor_modules=ENGINE_MODS,
-    rules=[_f6_rerun, _e7_rerun, E.rule_F4, G.rule_G1],
+    rules=[_f6_rerun, _e7_rerun, E.rule_F4, G.rule_G1, _t(T.rule_T3d, rows=("resuming",)),
+           _t(T.rule_T3b, rows=("resuming",))],
     controls=[K.ctl_rerun_write_before_reject, K.ctl_unguarded_staged_deref],
     explanation=(
         "Decides the structural clauses of rerun: the two rejections of request_workflow_rerun "
@@ -382,7 +383,7 @@ prop(
     "C16",
     anchor_modules=["expressions.base", "expressions.yql", "expressions.jinja",
                     "expressions.functions.common", "conducting", "specs.native.v1.models"],
-    rules=[PU.rule_O4, PU.rule_O5, PU.rule_O6],
+    rules=[PU.rule_O4, PU.rule_O5, PU.rule_O6, E.rule_O2, E.rule_F2],
     controls=[K.ctl_persist_internal_ctx, K.ctl_ctx_unfiltered, K.ctl_yaql_raw_context],
     explanation=(
         "Decides the purity and hiding clauses: in every Evaluator.contextualize the caller's "
@@ -400,7 +401,7 @@ prop(
     "C19",
     anchor_modules=ENGINE_MODS + ["composers.native", "specs.base", "specs.native.v1.models",
                                   "graphing", "expressions.base"],
-    rules=[OR.rule_N1, E.rule_F5, E.rule_O2, OR.rule_N2],
+    rules=[OR.rule_N1, E.rule_F5, E.rule_O2, OR.rule_N2, X.rule_X3],
     controls=[K.ctl_partial_sort_of_set, K.ctl_drop_ctx_copy],
     explanation=(
         "Decides the structural clauses of determinism and query purity: every collection "
